@@ -274,6 +274,7 @@ pub fn scenarios(thorough: bool) -> Vec<Scenario> {
         &[Op::Resolve(1, 0, 0), Op::Resolve(1, 0, 1), Op::Meld(0, 1)]));
     v.push(single_scenario("single-kinds", kind_docs(), if thorough { 3 } else { 2 }, &[Op::Snapshot(0)]));
     v.push(trio_scenario("trio", if thorough { 7 } else { 5 }));
+    v.push(trio_merge_scenario("trio-merge", if thorough { 3 } else { 2 }, &[]));
     v
 }
 
@@ -281,7 +282,7 @@ pub fn run(thorough: bool) {
     let mut rep = Report::new("C09", if thorough { "thorough" } else { "quick" }, "fault_enumeration");
     run_h(&mut rep, RunCfg {
         scenarios: scenarios(thorough),
-        probes: vec![Arc::new(FaultProbe { max_faults: 2, meld_subsets_up_to: if thorough { 8 } else { 5 }, seen: Mutex::new(HashSet::new()) })],
+        probes: vec![Arc::new(FaultProbe { max_faults: 2, meld_subsets_up_to: if thorough { 8 } else { 6 }, seen: Mutex::new(HashSet::new()) })],
         pools: vec![1],
         time_budget_s: if thorough { 2400 } else { 45 },
         max_states: if thorough { 100_000 } else { 4_000 },
